@@ -572,7 +572,7 @@ func execConc(f []string) string {
 		line := "C07 " + strings.Join(sub, " ")
 		fs[i] = func() string {
 			first := ""
-			for rep := 0; rep < 8; rep++ {
+			for rep := 0; rep < 32; rep++ {
 				c := &ectx{}
 				out := c.exec(line)
 				if c.mutated() {
@@ -1130,6 +1130,27 @@ func genBoundaries(g *core.Gen) {
 		script := []byte{0x01, byte(v), 0x4c, 0x01, byte(v), byte(0x50 + v%17)}
 		g.Case("boundary-push-length", true, fmt.Sprintf("C07 rmdata %s %02x", hx(script), v))
 	}
+	// input index beyond 16 bits (BIP341 commits to it as 4 bytes): 65537 inputs, the last one signed
+	{
+		tx := &wire.MsgTx{Version: 2}
+		var spent []*wire.TxOut
+		for j := 0; j < 65537; j++ {
+			in := &wire.TxIn{Sequence: uint32(j)}
+			in.PreviousOutPoint.Hash[0] = byte(j)
+			in.PreviousOutPoint.Hash[1] = byte(j >> 8)
+			in.PreviousOutPoint.Hash[2] = byte(j >> 16)
+			tx.TxIn = append(tx.TxIn, in)
+			spent = append(spent, &wire.TxOut{Value: int64(j)})
+		}
+		spent[65536].PkScript = append([]byte{0x51, 0x20}, r.Bytes(32)...)
+		tx.TxOut = []*wire.TxOut{{Value: 1, PkScript: []byte{0x51}}}
+		txs, sps := encTx(tx), encSpent(spent)
+		g.Case("boundary-count", true, fmt.Sprintf("C07 tap %s %s 65536 1 x x", txs, sps))
+		if g.Thorough() {
+			g.Case("boundary-count", true, fmt.Sprintf("C07 tap %s %s 65535 2 x %s:0", txs, sps, hx(r.Bytes(32))))
+			g.Case("boundary-count", true, fmt.Sprintf("C07 wit %s %s 65536 1 51 7", txs, sps))
+		}
+	}
 	// counts at the compact-size steps
 	counts := []int{65535, 65536}
 	for _, n := range counts {
@@ -1163,7 +1184,7 @@ func genHardening(g *core.Gen) {
 	r := g.R
 	genBoundaries(g)
 	// ---- independent digest computations running concurrently (no hidden shared state)
-	for k := 0; k < g.N(120, 2500); k++ {
+	for k := 0; k < g.N(160, 2500); k++ {
 		n := 8 + r.Intn(5)
 		subs := make([]string, n)
 		for i := range subs {
